@@ -258,6 +258,7 @@ def _make_class(cid):
     def body(value, ctx):
         k = _state['counter']
         _state['counter'] = k + 1
+        _state.setdefault('log', []).append((k, cid))
         f = _state['plan'].get(k)
         if f is not None:
             if f[0] == 'raises':
@@ -310,6 +311,46 @@ def _printer_reentrant(value, ctx):
         _reentrant['fail_next'] = False
         raise KeyError('injected, once')
     return pp.pretty_call_alt(ctx, 'Reentrant', args=(value.uid,))
+
+
+def commented_dict_value_check():
+    """a dict value carrying a comment is rendered twice (for the comment-above layout): a printer failing in EITHER rendering must be
+    reported by a warning naming it, the failure contained, the text that of the fault-free print with at most that value as its repr"""
+    bad = []
+    for spec in ((1, []), (2, [(1, [])]), (1, [(2, []), (3, [])]), (5, [(1, [])])):
+        def make():
+            rearm_by_name()
+            root, nodes = build_tree(spec, set())
+            return {'k': pp.comment(root, 'note'), 'z': 1}, nodes
+        v, nodes = make()
+        _state['counter'], _state['plan'], _state['log'] = 0, {}, []
+        with warnings.catch_warnings():
+            warnings.simplefilter('ignore')
+            want = pp.pformat(v, width=200)
+        log = list(_state['log'])
+        for (k, cid) in log:
+            v, nodes = make()
+            _state['counter'], _state['plan'], _state['log'] = 0, {k: ('raises', 0)}, []
+            with warnings.catch_warnings(record=True) as w:
+                warnings.simplefilter('always')
+                try:
+                    got = pp.pformat(v, width=200)
+                except Exception as e:
+                    got = 'EXC:' + type(e).__name__
+            _state['plan'] = {}
+            named = []
+            for x in w:
+                m = re.search(r'printer_C(\d+), raised an exception', str(x.message))
+                if m:
+                    named.append(int(m.group(1)))
+            if got.startswith('EXC:'):
+                bad.append({'kind': 'failure-not-contained', 'why': 'pformat raised %s' % got, 'tree': spec, 'plan': [(k, 'raises')], 'under': 'commented dict value'})
+            elif named != [cid]:
+                bad.append({'kind': 'failure-not-contained', 'why': 'invocation %d (printer_C%d) fails under a commented dict value: warnings name %s, expected exactly [%d]' % (k, cid, named, cid),
+                            'tree': spec, 'plan': [(k, 'raises')], 'under': 'commented dict value'})
+            if len(bad) >= 3:
+                return bad
+    return bad
 
 
 def reentrant_repr_check():
@@ -418,8 +459,11 @@ def fail_chunk(cases):
             try:
                 text = pp.pformat(root, width=200)
                 exc = None
+                exc_msg = ''
             except Exception as e:
                 text, exc = None, type(e).__name__
+                exc_msg = str(e)
+        all_messages = exc_msg + ' '.join(str(x.message) for x in w)
         warned = []
         for x in w:
             m = re.search(r'printer_C(\d+), raised an exception', str(x.message))
@@ -464,6 +508,12 @@ def fail_chunk(cases):
                     bad = 'output is not the fault-free output with value %d replaced by its repr: %s vs %s' % (k, text, want)
                 elif warned != [nodes_cls(spec, k)]:
                     bad = 'warnings name printers %s, expected exactly [%d]' % (warned, nodes_cls(spec, k))
+        if len(faults) == 1 and faults[0][1][0] == 'bad' and faults[0][0] < size(spec) and not bad:
+            # "a printer returning neither str nor Doc is reported with ValueError": the naming ValueError either escapes (top level) or
+            # shows up in the warning of the enclosing printer that it made fail
+            if 'must return an instance of str or Doc' not in all_messages:
+                bad = 'a bad return value of value %d is not reported with the ValueError about the return type (raised: %s; messages: %s)' % (
+                    faults[0][0], exc, all_messages[:200])
         if not bad and w2 and any('raised an exception' in str(x.message) for x in w2):
             bad = 'a later fault-free call warns'
         if not bad and later.replace('\n', ' ').replace(' ', '') != expected_text(spec, None).replace(' ', ''):
@@ -541,6 +591,8 @@ def failures_section(tier, seed):
                 if k > 0:
                     cases.append((t, {k: ('raises', e)}, {k}))          # the faulty value under a trailing comment
             cases.append((t, {k: ('bad',)}, set()))
+            if k > 0:
+                cases.append((t, {k: ('bad',)}, {k}))               # ... also under a trailing comment (printers with and without the parameter)
     # pairs of faults, sampled
     for _ in range(300 if tier == 'quick' else 3000):
         t = rng.choice(trees)
@@ -557,6 +609,7 @@ def failures_section(tier, seed):
             mism.extend(mm)
             fails.extend(ff)
     fails.extend(reentrant_repr_check())
+    fails.extend(commented_dict_value_check())
     stats = {'evaluations': tot, 'distinct_nontrivial': nt, 'trees': len(trees), 'mismatches': len(mism), 'exhaustive': True,
              'reentrant_repr_checked': True,
              'samples': [{'tree': cases[7][0], 'fault': sorted(cases[7][1].items())}],
